@@ -443,6 +443,26 @@ def evaluate_fault(pid, p, stream, k, how, ST, DS):
 
 
 
+def evaluate_retuned(pid, p0, p, stream, ST, SDS, DS):
+    """A tokenizer built with parameters p0 whose PUBLIC parameter attributes are then set to p's values: the parameters
+    in force are p (the tokenizer reads them when it runs), so every clause holds with p."""
+    try:
+        t = mk(ST, p0)
+        t.min_length, t.max_length, t.max_continuous_silence = p["m"], p["M"], p["s"]
+        t.init_min = p.get("i0", 0)
+        t.init_max_silent = p.get("ims", 0)
+        tk = t.tokenize(SDS(stream))
+    except Exception as e:  # noqa
+        return "tokenize raised %s: %s" % (type(e).__name__, e)
+    chk = {"C01": check_C01, "C02": check_C02, "C03": check_C03, "C04": check_C04}.get(pid)
+    if chk is None:
+        if p.get("i0", 0) <= 1 and [(a, b) for _, a, b in tk] != list(spec_C04(p, stream)):
+            return "tokens %r are not the segmentation %r for the parameters in force" % ([(a, b) for _, a, b in tk][:4], spec_C04(p, stream)[:4])
+        return None
+    return chk(p, stream, tk)
+
+
+
 def pre_check(pid):
     """Library-level sentences of C08 / C20 that are not about StreamTokenizer alone."""
     import auditok
@@ -735,6 +755,25 @@ def search(pid, budget, maxlen):
         else:
             continue
         break
+    # last: parameters changed through the public attributes after construction (same mode)
+    tr = time.time()
+    for L in range(1, 9):
+        for bits in itertools.product("Aa", repeat=L):
+            stream = "".join(bits)
+            for p0 in params[::5]:
+                for p in params[::3]:
+                    if p.get("mode", 0) != p0.get("mode", 0) or p == p0:
+                        continue
+                    n += 1
+                    r = evaluate_retuned(pid, p0, p, stream, ST, SDS, DS)
+                    if r:
+                        return {"kind": "tokenizer", "pid": pid, "params": p, "built_with": p0, "stream": stream,
+                                "observed": "built with %r, public parameter attributes then set to %r: %s" % (p0, p, r)}, n
+            if time.time() - tr > max(8, budget * 0.15):
+                break
+        else:
+            continue
+        break
     return None, n
 
 
@@ -756,6 +795,15 @@ def replay(w):
             print("expected: property holds;  observed: " + r)
             return 1
         print("property holds on this scenario")
+        return 0
+    if "built_with" in w:
+        r = evaluate_retuned(w["pid"], w["built_with"], w["params"], w["stream"], ST, SDS, DS)
+        print("property %s, StreamTokenizer built with %r, public parameter attributes then set to %r, stream %r" % (
+            w["pid"], w["built_with"], w["params"], w["stream"]))
+        if r:
+            print("expected: property holds;  observed: " + r)
+            return 1
+        print("property holds on this input")
         return 0
     if "fault" in w:
         r = evaluate_fault(w["pid"], w["params"], w["stream"], w["fault"], w["how"], ST, DS)
